@@ -1224,6 +1224,13 @@ class Ev(BlockEval):
             c = st.value
             f = c.func
             if isinstance(f, ast.Attribute) and isinstance(f.value, ast.Name) and f.value.id in ("logging", "logger", "warnings") and f.value.id not in self.env:
+                # the message goes nowhere, but its arguments are evaluated whatever the log level: what they do to the
+                # containers they read (a defaultdict look-up inserts) is part of the program
+                for a_ in list(c.args) + [k_.value for k_ in c.keywords]:
+                    try:
+                        self.fold(a_)
+                    except Unknown:
+                        pass  # a diagnostic the evaluator does not read
                 return
             self.fold(c)
         elif isinstance(st, ast.Expr):
@@ -2304,7 +2311,13 @@ def check_main(chk, mn, fi=None) -> Optional[str]:
             nums = head[2]
             if not nums:
                 return f"heading `{head[3].strip()[:60]}` prints no number: report layout not understood"
-            if not vals or not any(math.isclose(x, max(vals), abs_tol=1e-12) for x in nums):
+            if not vals:
+                st_, fmt = site_of.get(head[3], (None, []))
+                if maxima_site[0] is None and st_ is not None:
+                    maxima_site[0] = st_
+                add("report-maxima", f"heading `{TOK.sub(lambda m_: m_.group(0)[1:-1], head[3].strip())[:110]}` is printed (line {st_.lineno if st_ is not None else '?'}) although no atom clash is listed below it: the block does not correspond to any clash found, its maximum {nums[0]} is not the maximum over listed clashes (an entry of the grouping container that no clash was filed under)")
+                continue
+            if not any(math.isclose(x, max(vals), abs_tol=1e-12) for x in nums):
                 st_, fmt = site_of.get(head[3], (None, []))
                 src = [e for e, v in fmt if any(math.isclose(v, x, abs_tol=1e-12) for x in nums)]
                 by = f" (line {st_.lineno}: the value of `{src[-1]}`)" if st_ is not None and src else (f" (line {st_.lineno})" if st_ is not None else "")
